@@ -237,6 +237,16 @@ Section Simp.
   Fixpoint gchain (h : cen) : bool :=
     match h with CGauss _ _ _ _ => true | CScale _ h => gchain h | _ => false end.
 
+  (* Gaussian chains, scaled, summed (InsertionOperator fall-back), StandardHamiltonian, constants: the family
+     for which the general metric theorem is proved (everything except the variable-covariance Gaussian) *)
+  Fixpoint mfam (h : cen) : bool :=
+    match h with
+    | CGauss _ _ _ _ | CConst _ => true
+    | CScale _ h | CHam h | CIns _ _ h => mfam h
+    | CAddL h1 h2 => mfam h1 && mfam h2
+    | CVCG _ _ _ _ | CGamma _ _ _ => false
+    end.
+
   (* metric of a Linearization applied to a direction (a0 when there is no metric), and its presence *)
   Definition metapp (wm : bool) (h : cen) (r d : env) : env :=
     match snd (linC wm h r) with Some M => mapply A a0 aadd amul M d | None => fun _ _ => a0 end.
